@@ -43,9 +43,10 @@ def run(prop, tier, seed):
         if fails(r) or r.distinct != n:
             raise MachineryError("specification disagrees with official vectors: %s" % fails(r)[:3])
         c.extra["official_vectors_agreeing_with_spec"] = n
-        if ver == "4" and tier == "thorough":
-            r = tlc_or_die("MC_Score4", timeout=3600)
-            c.add_tlc("MC_Score4 design invariants, all 15 116 544 level tuples", r)
+        if ver == "4":
+            r = tlc_or_die("MC_Score4", cfg="MC_Score4.cfg" if tier == "thorough" else "MC_Score4_quick.cfg", timeout=7200)
+            c.add_tlc("MC_Score4 design invariants (row exists, dominated, gaps >= 0, distances within depth, tie margin, range, two formulations agree) over %s level tuples"
+                      % ("all 15 116 544" if tier == "thorough" else "the first 300 000"), r)
         # 2. code -> spec: score tables
         if ver == "3":
             tabs = tables.v3_tables(tier, seed, 0) + tables.v3_tables(tier, seed, 1)
